@@ -15,6 +15,7 @@ import (
 	"sort"
 	"strings"
 
+	capnp "capnproto.org/go/capnp/v3"
 	"capnproto.org/go/capnp/v3/internal/verif/c15/layout"
 )
 
@@ -67,6 +68,8 @@ type Type struct {
 	Kind Kind
 	Elem *Type // List
 	Ref  *Node // Enum, Struct, Interface
+	// AnyKind refines AnyPointer: 0 any, 1 AnyStruct, 2 AnyList, 3 Capability
+	AnyKind int
 }
 
 // T builds a primitive type.
@@ -126,6 +129,8 @@ type Default struct {
 	Elems []uint64
 	Strs  []string
 	Sub   [][]uint64
+	// Raw: a pointer default taken from a registered schema (importnode.go)
+	Raw capnp.Ptr
 }
 
 // NodeKind distinguishes schema nodes.
@@ -251,6 +256,8 @@ type File struct {
 	ID      uint64
 	Name    string // "c15plain/c15plain.capnp" (display name = file name)
 	Pkg     string // $Go.package
+	Dir     string // directory below c15gen/ (= import path suffix)
+	Key     string // unique key of the Go package (registry, status)
 	Import  string // $Go.import
 	Nodes   []*Node
 	Imports []*File // other schema files it imports (besides go.capnp)
@@ -273,11 +280,15 @@ func ID(display string) uint64 {
 // ImportBase is the import path prefix of every generated package.
 const ImportBase = "capnproto.org/go/capnp/v3/internal/verif/c15gen/"
 
-// NewFile creates a file whose Go package is pkg.
-func NewFile(pkg string) *File {
+// NewFile creates a file <pkg>/<pkg>.capnp whose Go package is pkg.
+func NewFile(pkg string) *File { return NewFileIn(pkg, pkg, pkg) }
+
+// NewFileIn creates the file <dir>/<base>.capnp with Go package name pkg and
+// import path ImportBase+dir.
+func NewFileIn(dir, base, pkg string) *File {
 	// the compiler uses the path given on its command line as display name
-	name := pkg + "/" + pkg + ".capnp"
-	return &File{ID: ID(name), Name: name, Pkg: pkg, Import: ImportBase + pkg}
+	name := dir + "/" + base + ".capnp"
+	return &File{ID: ID(name), Name: name, Pkg: pkg, Dir: dir, Key: strings.Replace(dir, "/", "_", -1), Import: ImportBase + dir}
 }
 
 // AllNodes returns every node of the file (structs, groups, nested, enums…)
